@@ -24,7 +24,8 @@
 (*    an erroneous pair in one general comparison; an empty operand next   *)
 (*    to a too long one in a value comparison): the whole set is accepted; *)
 (*  - collations other than the code point collation;                      *)
-(*  - the implicit timezone: all date/time values are without timezone;    *)
+(*  - the implicit timezone is a parameter (EBV!ImplicitTZ = +05:00, set   *)
+(*    by the binding through select(timezone=...)), not a vector;          *)
 (*  - xs:decimal / xs:float values off the dyadic grid n/2^24 (rounding of *)
 (*    the promotion to xs:float / xs:double);                              *)
 (*  - xs:untypedAtomic against xs:QName on XPath 2.0 processors (the cast  *)
@@ -54,9 +55,23 @@ LexOrd(s, u) ==      \* lexicographic order of two integer sequences: "lt" | "eq
 
 (* op:numeric-equal / op:numeric-less-than (F&O 6.3): after promotion [B1] the values are compared
    as numbers; positive and negative zero are equal; NaN is unordered ("un"): NaN eq NaN is false *)
-NumKey(v) == IF v.k = "ninf" THEN <<0, 0>> ELSE IF v.k = "pinf" THEN <<2, 0>> ELSE <<1, v.n>>
-NumOrd(a, b) == IF IsNaN(a) \/ IsNaN(b) THEN "un" ELSE LexOrd(NumKey(a), NumKey(b))
+BigBase == 2000000000          \* above every grid value n; a "big" value 2^53 + off has the key BigBase + off
+NumKey(v) == IF v.k = "ninf" THEN <<0, 0>> ELSE IF v.k = "pinf" THEN <<2, 0>>
+             ELSE IF v.k = "big" THEN <<1, BigBase + v.n>> ELSE <<1, v.n>>
+(* cast to xs:double: exact on the grid; around 2^53 the spacing of doubles is 2: round half to even *)
+RoundBig(off) == IF off % 2 = 0 THEN off ELSE IF ((off - 1) \div 2) % 2 = 0 THEN off - 1 ELSE off + 1
+ToDbl(v) == IF v.k = "big" THEN [v EXCEPT !.t = "dbl", !.n = RoundBig(v.n)] ELSE [v EXCEPT !.t = "dbl"]
+IsFloatT(t) == t \in {"flt", "dbl"}
+NumOrd(a, b) ==      \* [B1]: if one operand is xs:float / xs:double the other is promoted (cast) to it first
+  IF IsNaN(a) \/ IsNaN(b) THEN "un"
+  ELSE IF IsFloatT(a.t) \/ IsFloatT(b.t) THEN LexOrd(NumKey(ToDbl(a)), NumKey(ToDbl(b)))
+  ELSE LexOrd(NumKey(a), NumKey(b))
 
+(* the point of the timeline a date/time value denotes, in seconds + microseconds: "if either argument
+   has no timezone, the implicit timezone of the dynamic context is used" (F&O 10.4 op:dateTime-equal;
+   a date is the instant its day starts, a time is taken on the reference day of F&O) *)
+TKey(v) == LET z == IF v.tz = NoTZ THEN ImplicitTZ ELSE v.tz
+           IN <<v.dn * 86400 + v.s - z * 60, v.us>>
 BinaryOrdered(c) == c \in {"v31", "c31"}    \* op:hexBinary-less-than, op:base64Binary-less-than: F&O 3.1 only
 B2I(b) == IF b THEN 1 ELSE 0
 EqOnly(b) == IF b THEN "eqq" ELSE "neq"     \* equality is defined, order is not
@@ -67,7 +82,8 @@ Ord(a, b, c) ==
   IF IsNumT(a.t) /\ IsNumT(b.t) THEN NumOrd(a, b)
   ELSE IF a.t \in {"str", "uri"} /\ b.t \in {"str", "uri"} THEN LexOrd(a.s, b.s)  \* fn:compare, code points; anyURI promoted [B1]
   ELSE IF a.t = "bool" /\ b.t = "bool" THEN LexOrd(<<B2I(a.b)>>, <<B2I(b.b)>>)   \* op:boolean-less-than: false < true
-  ELSE IF a.t = b.t /\ a.t \in {"date", "dt", "time"} THEN LexOrd(a.f, b.f)
+  ELSE IF a.t = b.t /\ IsTimeT(a.t) THEN LexOrd(TKey(a), TKey(b))      \* op:dateTime/date/time-equal, -less-than (F&O 10.4)
+  ELSE IF a.t = b.t /\ IsGT(a.t) THEN EqOnly(TKey(a) = TKey(b))        \* op:gYear-equal ...: equality of the starting instants only
   ELSE IF IsDurT(a.t) /\ IsDurT(b.t)
        THEN IF a.t = "ymd" /\ b.t = "ymd" THEN LexOrd(<<a.mo>>, <<b.mo>>)         \* op:yearMonthDuration-less-than
             ELSE IF a.t = "dtd" /\ b.t = "dtd" THEN LexOrd(a.se, b.se)            \* op:dayTimeDuration-less-than (values >= 0 here)
@@ -103,8 +119,20 @@ ValSeq(op, A, B, c) ==
 (* casts of xs:untypedAtomic (and, for fn:number, xs:string): lexical mappings of the strings of
    the universe (XSD 1.1 part 2; F&O 17.1 casting table).  Every string of the universe that is
    in the lexical space of a target type is listed; everything else is FORG0001. *)
+(* whiteSpace facet (XSD part 2, 4.3.6): collapse for every type except xs:string (preserve); the cast
+   from xs:untypedAtomic applies it before the lexical mapping (F&O 17.1.1 "Casting from xs:string and
+   xs:untypedAtomic": "the whitespace normalization ... is applied") *)
+IsWS(ch) == ch \in {9, 10, 13, 32}
+RECURSIVE DropWS(_)
+DropWS(s) == IF s # <<>> /\ IsWS(s[1]) THEN DropWS(Tail(s)) ELSE s
+RECURSIVE CollapseFrom(_)
+CollapseFrom(s) ==
+  IF s = <<>> THEN <<>>
+  ELSE IF IsWS(s[1]) THEN (LET r == DropWS(s) IN IF r = <<>> THEN <<>> ELSE <<32>> \o CollapseFrom(r))
+  ELSE <<s[1]>> \o CollapseFrom(Tail(s))
+Collapse(s) == CollapseFrom(DropWS(s))
 CastTable == {
-  <<S_1, "dbl", Db1>>, <<S_1p0, "dbl", Db1>>,
+  <<S_1, "dbl", Db1>>, <<S_1p0, "dbl", Db1>>, <<S_big1, "dbl", DBig0>>,      \* the lexical mapping of xs:double rounds
   <<S_1, "bool", Bool(TRUE)>>, <<S_true, "bool", Bool(TRUE)>>,
   <<S_date1, "date", Date1>>,
   <<S_P1M, "ymd", Y1M>>, <<S_P1M, "dur", U1M>>,
@@ -117,9 +145,9 @@ CastTable == {
    stated consistently by the 2.0 texts: outcome "UNSPEC" = the vector is removed for 2.0 processors. *)
 CastU(s, T, c) ==
   IF T = "str" THEN Str(s)
-  ELSE IF T = "uri" THEN Uri(s)
+  ELSE IF T = "uri" THEN Uri(Collapse(s))
   ELSE IF T = "qn" /\ c \in {"v20", "c20", "c10"} THEN Err("UNSPEC")
-  ELSE LET m == {e \in CastTable : e[1] = s /\ e[2] = T}
+  ELSE LET m == {e \in CastTable : e[1] = Collapse(s) /\ e[2] = T}
        IN IF m = {} THEN Err("FORG0001") ELSE (CHOOSE e \in m : TRUE)[3]
 
 ---------------------------------------------------------------------------
@@ -165,7 +193,7 @@ IterFrom(op, A, B, c, k) ==
 (* [GC] XPath 1.0 compatibility mode, rules 1-4 *)
 (* fn:number: "if $arg cannot be converted to an xs:double, NaN is returned" (F&O 14.4.x fn:number) *)
 FnNumber(v, c) ==
-  IF IsNumT(v.t) THEN [v EXCEPT !.t = "dbl"]
+  IF IsNumT(v.t) THEN ToDbl(v)
   ELSE IF v.t = "bool" THEN Num("dbl", IF v.b THEN Unit ELSE 0)
   ELSE IF v.t \in {"str", "unt"}
        THEN LET d == CastU(v.s, "dbl", c) IN IF d.t = "err" THEN DbNaN ELSE d
@@ -226,7 +254,8 @@ In3(S) == \A i \in 1..Len(S) : S[i] \in SeqItems3
 (* single items range over the whole universe; as soon as one operand has two items both operands
    are drawn from the pool, with three items from SeqItems3 *)
 CanAppend(S, other, v) ==
-  \/ S = <<>> /\ v \in Items /\ (Len(other) >= 2 => v \in Pool) /\ (Len(other) >= 3 => v \in SeqItems3)
+  \/ /\ S = <<>> /\ v \in Items /\ (Len(other) >= 2 => v \in Pool) /\ (Len(other) >= 3 => v \in SeqItems3)
+     /\ (Len(other) = 1 => Partner(v, other[1]))
   \/ /\ S # <<>> /\ Len(S) < MaxLen /\ v \in Pool /\ InPool(S) /\ InPool(other)
      /\ (Len(S) >= 2 => (v \in SeqItems3 /\ In3(S) /\ In3(other)))
      /\ (Len(other) >= 3 => (v \in SeqItems3 /\ In3(S)))
@@ -265,44 +294,56 @@ VCfgs == {"v20", "v31"}
 Bo(o) == o \in {"TRUE", "FALSE"}
 Involves(a) == IsNumT(a.t) /\ IsNaN(a)
 LawNeIsNotEq ==      \* ne = not eq, errors coincide
-  \A a \in Atoms, b \in Atoms, c \in VCfgs : Val("ne", a, b, c) = NotOut(Val("eq", a, b, c))
+  \A a \in AllAtoms, b \in AllAtoms, c \in VCfgs : Val("ne", a, b, c) = NotOut(Val("eq", a, b, c))
 LawConverse ==       \* a lt b = b gt a, a le b = b ge a, eq/ne symmetric, type errors symmetric
-  \A a \in Atoms, b \in Atoms, c \in VCfgs :
+  \A a \in AllAtoms, b \in AllAtoms, c \in VCfgs :
      /\ Val("lt", a, b, c) = Val("gt", b, a, c) /\ Val("le", a, b, c) = Val("ge", b, a, c)
      /\ Val("eq", a, b, c) = Val("eq", b, a, c) /\ Val("ne", a, b, c) = Val("ne", b, a, c)
 LawReflexive ==      \* a eq a, a le a -- except NaN, which is unequal to everything, itself included
-  \A a \in Atoms, c \in VCfgs :
+  \A a \in AllAtoms, c \in VCfgs :
      IF Involves(a)
      THEN /\ \A b \in Numerics : /\ Val("eq", a, b, c) = "FALSE" /\ Val("ne", a, b, c) = "TRUE"
                                  /\ \A op \in OrderOps : Val(op, a, b, c) = "FALSE" /\ Val(op, b, a, c) = "FALSE"
      ELSE /\ Val("eq", a, a, c) = "TRUE" /\ Val("ne", a, a, c) = "FALSE"
           /\ (Bo(Val("le", a, a, c)) => (Val("le", a, a, c) = "TRUE" /\ Val("lt", a, a, c) = "FALSE"))
 LawTotal ==          \* where lt is defined and no NaN is involved exactly one of lt, eq, gt holds; le = lt or eq
-  \A a \in Atoms, b \in Atoms, c \in VCfgs :
+  \A a \in AllAtoms, b \in AllAtoms, c \in VCfgs :
      (Bo(Val("lt", a, b, c)) /\ ~Involves(a) /\ ~Involves(b)) =>
         /\ Cardinality({op \in {"lt", "eq", "gt"} : Val(op, a, b, c) = "TRUE"}) = 1
         /\ (Val("le", a, b, c) = "TRUE") = (Val("lt", a, b, c) = "TRUE" \/ Val("eq", a, b, c) = "TRUE")
         /\ (Val("ge", a, b, c) = "TRUE") = (Val("gt", a, b, c) = "TRUE" \/ Val("eq", a, b, c) = "TRUE")
 LawAntisymmetric ==
-  \A a \in Atoms, b \in Atoms, c \in VCfgs :
+  \A a \in AllAtoms, b \in AllAtoms, c \in VCfgs :
      (Val("le", a, b, c) = "TRUE" /\ Val("le", b, a, c) = "TRUE") => Val("eq", a, b, c) = "TRUE"
 LawTransitive ==     \* le and eq are transitive, also across promoted types (1, 1.0, xs:float 1, 1e0; string/anyURI/untyped)
-  \A a \in Atoms, b \in Atoms, c \in VCfgs :
+  \A a \in AllAtoms, b \in AllAtoms, c \in VCfgs :
      (Val("le", a, b, c) = "TRUE" \/ Val("eq", a, b, c) = "TRUE") =>
-        \A d \in Atoms :
+        \A d \in AllAtoms :
            /\ (Val("le", a, b, c) = "TRUE" /\ Val("le", b, d, c) = "TRUE") => Val("le", a, d, c) = "TRUE"
            /\ (Val("eq", a, b, c) = "TRUE" /\ Val("eq", b, d, c) = "TRUE") => Val("eq", a, d, c) = "TRUE"
            /\ (Val("lt", a, b, c) = "TRUE" /\ Val("le", b, d, c) = "TRUE") => Val("lt", a, d, c) = "TRUE"
 TypeClass(a) ==      \* the comparable families of [B2] after promotion and the untypedAtomic -> string cast
   IF IsNumT(a.t) THEN "numeric" ELSE IF IsStrT(a.t) THEN "string" ELSE IF IsDurT(a.t) THEN "duration" ELSE a.t
 LawTypeError ==      \* XPTY0004 exactly for different families, or for an operator without entry
-  \A a \in Atoms, b \in Atoms, c \in VCfgs :
+  \A a \in AllAtoms, b \in AllAtoms, c \in VCfgs :
      /\ (TypeClass(a) # TypeClass(b)) => \A op \in Ops : Val(op, a, b, c) = "XPTY0004"
      /\ (TypeClass(a) = TypeClass(b)) => (Bo(Val("eq", a, b, c)) /\ Bo(Val("ne", a, b, c)))
-     /\ (a.t = "qn" /\ b.t = "qn") => \A op \in OrderOps : Val(op, a, b, c) = "XPTY0004"
+     /\ ((a.t = "qn" /\ b.t = "qn") \/ (a.t = b.t /\ IsGT(a.t))) => \A op \in OrderOps : Val(op, a, b, c) = "XPTY0004"
      /\ (IsDurT(a.t) /\ IsDurT(b.t) /\ ~(a.t = b.t /\ a.t # "dur")) => \A op \in OrderOps : Val(op, a, b, c) = "XPTY0004"
      /\ (a.t = b.t /\ a.t \in {"hex", "b64"}) => \A op \in OrderOps : (Val(op, a, b, c) = "XPTY0004") = (c = "v20")
+LawTimeline ==       \* the order of date/time values is the order of the instants: equal instants written with
+  \A a \in AllAtoms, b \in AllAtoms, c \in VCfgs :          \* different timezones are eq, and le both ways implies eq
+     (a.t = b.t /\ (IsTimeT(a.t) \/ IsGT(a.t))) =>
+        /\ (Val("eq", a, b, c) = "TRUE") = (TKey(a) = TKey(b))
+        /\ IsTimeT(a.t) => (Val("lt", a, b, c) = "TRUE") = (TKey(a)[1] < TKey(b)[1] \/ (TKey(a)[1] = TKey(b)[1] /\ TKey(a)[2] < TKey(b)[2]))
+LawWhitespace ==     \* a cast of an untypedAtomic ignores surrounding white space; the string comparison does not
+  \A u \in WsUntypeds, p \in WsPartners, op \in Ops, c \in {"v20", "v31"} :
+     /\ Collapse(u.s) # u.s /\ Collapse(Collapse(u.s)) = Collapse(u.s)
+     /\ (p.t \notin {"str", "unt"}) => PairGen(op, u, p, c) = PairGen(op, Unt(Collapse(u.s)), p, c)
+     /\ Val("eq", u, Str(Collapse(u.s)), c) = "FALSE" /\ PairGen("eq", u, Unt(Collapse(u.s)), c) = "FALSE"
+     /\ Val("eq", u, Str(u.s), c) = "TRUE"
 ValueLaws == LawNeIsNotEq /\ LawConverse /\ LawReflexive /\ LawTotal /\ LawAntisymmetric /\ LawTransitive /\ LawTypeError
+             /\ LawTimeline
 ASSUME ValueLaws
 
 (* LAWS OF THE GENERAL COMPARISON, invariants over every reachable operand pair *)
@@ -353,5 +394,6 @@ InvSetBased ==           \* the closure sees only the sets of items: duplicates 
                   nan   == CloseSet(op, PadSet(lhs, "nan", 17), PadSet(rhs, "nan", 17), c)
               IN /\ ("TRUE" \in nan) = ("TRUE" \in plain)
                  /\ plain = GenAny(op, lhs, rhs, c) \/ SingleBool(lhs) \/ SingleBool(rhs)
+ASSUME LawWhitespace
 GeneralLaws == InvExistential /\ InvIterAdmissible /\ InvConverse /\ InvMonotone /\ InvModesAgree /\ InvValue /\ InvSetBased
 =============================================================================
